@@ -1,7 +1,7 @@
 (* C05 — property theorems only. *)
 From Coq Require Import ZArith List Bool String.
 From Verif Require Import C04.Model C04.Proofs Common.LockIR Common.Reduction C05.Model C05.Proofs C05.GenOk
-  C05.Reduction gen.Gen_C05.
+  C05.Reduction gen.Gen_C05 gen.Gen_C04 C04.GenOk C04.GenSys.
 Import ListNotations.
 Open Scope Z_scope.
 
@@ -174,3 +174,21 @@ Theorem c05_lock_discipline_needed :
                 finished (cths C) -> cmem C <> [1%nat]).
 Proof. exact Example.wf_hypothesis_needed. Qed.
 Print Assumptions c05_lock_discipline_needed.
+
+(* ====================================================================== *)
+(* The critical sections are the code.  The operations a schedule interleaves are C04's [step]; C04/GenOk.v and
+   GenSys.v prove that the functions generated from metabolism.py on every run compute exactly that step.  So:
+   every schedule of threads that do not transfer ends in exactly the state the GENERATED methods reach when they
+   are run one after the other in the order [linearise] (binary64 classifier and interest, all indices naming
+   existing stores). *)
+Theorem c05_gen_serial_equivalence :
+  forall sched sys ths, local_only ths ->
+    Forall (C04.GenSys.op_addr_ok (List.length sys)) (linearise ths sched) ->
+    map C04.GenOk.proj (fst (run_sched classify_float interest_float sys ths sched)) =
+    C04.GenSys.gfinal (map C04.GenOk.proj sys) (linearise ths sched).
+Proof.
+  intros sched sys ths Hl Ha.
+  rewrite (C04.GenSys.gfinal_ok _ _ Ha).
+  f_equal. exact (serial_equivalence classify_float interest_float sched sys ths Hl).
+Qed.
+Print Assumptions c05_gen_serial_equivalence.
